@@ -3,7 +3,7 @@
 import json, os, shutil, sys, glob
 prop, k, name, demo_dir, demo_cmd, tests_cmd, needs = sys.argv[1:8]
 breaks = sys.argv[8:] or [prop]
-src = "/tmp/mut-%s-out" % prop
+src = os.environ.get("SEED_SRC", "/tmp/mut-%s-out") % prop
 d = "/verif/seeded/%s" % name
 os.makedirs(d, exist_ok=True)
 shutil.copy("%s/%s-mut%s.diff" % (src, prop, k), d + "/patch.diff")
